@@ -5,10 +5,11 @@
   For a box that forms a stacking context (E.2):
     1-2  its own background, then border;
     3    child stacking contexts with negative z-index, most negative first, ties in tree order;
-    4    in-flow, non-positioned, block-level descendants: background, border — tree order;
+    4    in-flow, non-positioned, block-level descendants: background, border — tree order; for a table: table
+         background, cell backgrounds in tree order, then the table's border and the cells' borders;
     5    non-positioned floats, each painted as if it formed a context (but positioned descendants and
          real child contexts take part in the parent context);
-    7    inline content of the box and of its in-flow non-positioned block descendants — tree order; inside
+    7    inline content of the box and of its in-flow non-positioned block descendants and table cells — tree order; inside
          one block, for each line box, the inline-level boxes in tree order: text runs, the children of inline
          boxes, and inline-blocks painted atomically "as if they generated a new stacking context" (E.2
          7.2.1.4) — their floats, positioned and z-ordered descendants still belong to the enclosing context;
@@ -28,22 +29,19 @@
 import WR.C16.Model
 namespace WR.C16
 
-/-- is the box an ordinary in-flow box of the enclosing (pseudo-)context? -/
-def BProps.inFlow (p : BProps) : Bool := !p.makesContext && !p.positioned && !p.floated && !p.inlineBlock
-
 /-- CSS 2.1 9.9.1: z-index applies to positioned boxes only; a non-positioned box that forms a context
     (opacity, transform, overflow) is painted at layer 8 like z-index 0 -/
 def BProps.specZ (p : BProps) : Int := if p.positioned then p.z.getD 0 else 0
 
 /-- one (pseudo-)context, from its layers -/
-def layers (id : Nat) (pr : BProps) (parts : List CCtx) (blocks : List Nat) (floats : List (List PEv))
+def layers (id : Nat) (pr : BProps) (parts : List CCtx) (blocks : List (List PEv)) (floats : List (List PEv))
     (lines : List (List PEv)) (inflow : List Nat) : List PEv :=
   (if pr.opacity then [(id, Layer.groupOpen)] else [])
   ++ (if pr.transform then [(id, Layer.xformOpen)] else [])
   ++ (if pr.blockLevel || pr.inlineBlock then [(id, Layer.background), (id, Layer.border)] else [])
   ++ (if pr.overflow then [(id, Layer.clipOpen)] else [])
   ++ ((sortZ (parts.filter (·.1 < 0))).flatMap (·.2))
-  ++ (blocks.flatMap fun b => [(b, Layer.background), (b, Layer.border)])
+  ++ blocks.flatten
   ++ floats.flatten
   ++ lines.flatten
   ++ ((parts.filter (·.1 == 0)).flatMap (·.2))
@@ -78,10 +76,11 @@ mutual
       ++ participants rest
 
   /-- step 4 -/
-  def flowBlocks : List Box → List Nat
+  def flowBlocks : List Box → List (List PEv)
     | [] => []
     | .mk id pr children :: rest =>
-      (if pr.inFlow then (if pr.blockLevel then [id] else []) ++ flowBlocks children else []) ++ flowBlocks rest
+      (if pr.inFlow then (if pr.blockLevel then [blockPaint id pr children] else []) ++ flowBlocks children else [])
+      ++ flowBlocks rest
 
   /-- step 5 -/
   def floatsOf : List Box → List (List PEv)
@@ -95,7 +94,7 @@ mutual
   def flowLines : List Box → List (List PEv)
     | [] => []
     | .mk id pr children :: rest =>
-      (if pr.inFlow then (if pr.blockLevel && pr.hasLines then [inlineOf children] else []) ++ flowLines children else [])
+      (if pr.inFlow then (if (pr.blockLevel || pr.tableCell) && pr.hasLines then [inlineOf children] else []) ++ flowLines children else [])
       ++ flowLines rest
 
   /-- the inline drawing of a list of boxes inside a line (E.2 step 7.2.1): text runs, the children of line and
